@@ -16,7 +16,10 @@ MANIFEST = dict(
           "run inside one path: chains of 1-2 conversions (copying routes and in-place twins) followed by one in-place step on "
           "any of the objects alive, with z3 proving that every other object keeps its numbers and unit and that the same "
           "request still gives the oracle's numbers; the same spellings with other scales in a second registry, interleaved, "
-          "with warm caches. Bounded: kinds, chains, payload shapes <= (2,2); rounding and non-float dtypes are outside."),
+          "with warm caches. The name table of the two affine dimensions (difference units, alternative spellings, prefixed forms) is walked "
+          "against anchors and in three-unit chains, with user-defined symbolic units under a difference-unit spelling; the dtype of the "
+          "buffer (int64, uint64, int32, float32) is an axis of the chain, base-route and history families, with symbolic (integer) values. "
+          "Bounded: kinds, chains, payload shapes <= (2,2); rounding, complex and 1-/2-byte buffers are outside."),
     design="DESIGN.md section 4 C03",
     technique="symbolic execution of the real Python code over z3 real terms; SMT (QF_NRA) obligations per path; counterexample replay")
 EXPLANATION = (
@@ -34,7 +37,19 @@ EXPLANATION = (
     "z3 then proves that every OTHER object still holds exactly its numbers and its unit, that the victim reads the oracle's "
     "value in its new unit (A->B->C with the second leg in place == A->C), and that fresh to(C)/to_value(C) requests from a "
     "survivor still give the oracle's numbers (the same request repeated). Epoch family: two registries give the spellings "
-    "xa, xb different symbolic scales/offsets; the same request alternates between them through all six entry points, twice."
+    "xa, xb different symbolic scales/offsets; the same request alternates between them through all six entry points, twice. "
+    "Name-table family (name*, nameChain*): every spelling kind of the temperature and angle tables - K, R, degC, degF, the difference units "
+    "delta_degC/delta_degF, prefixed forms (mdegC, kdegC, kdelta_degC, mdelta_degC, mK, mrad), alternative names (celsius, degree_celsius, "
+    "\u00b0C, \u00b0F, fahrenheit, kelvin, rankine, latitude, degree_longitude), Tsun, arcmin, arcsec, hourangle, rev - is converted to and from each "
+    "anchor of its family (degC, K, degF, delta_degC, a free symbolic affine unit; lat, degree, a free symbolic affine angle) through "
+    "all six entry points and ten more call forms of them (target by keyword, as a Unit object, with equivalence=None spelled out) and stands in the middle and at the ends of three-unit chains, against oracle constants written in the "
+    "harness: a unit that the code singles out by its spelling disagrees with them for symbolic values. User-defined units spelled "
+    "delta_x.. (symbolic scale) are members of the symbolic pair/triple families. "
+    "Dtype axis (typed, base/../<dtype>, histTyped): the payload is the same object array of z3 terms inside a carrier that reports "
+    "int64 / uint64 / int32 / float32 through .dtype, .d and .ndview and follows NumPy's rules for x.dtype = f, x.astype(f) and "
+    "x.copy(); the real integer branches of convert_to_units (retyping dance), in_units / in_base (overflow test, float width) run on "
+    "it with symbolic integer values (z3: ToInt(x) = x, bounded), all six entry points, the base routes with their in-place twins, "
+    "and histories whose head is the typed buffer converted in place before or after copies were derived from it."
 )
 BOUNDS = {
     "quick": "unit kinds {plain, prefixed plain, compound, temperature plain/affine/prefixed-affine, user angle with offset, "
@@ -43,15 +58,23 @@ BOUNDS = {
              "/ free; user-defined symbolic units, table units incl. Hz|1/s and J|N*m, T|G|mT and C|statC through the EM route) x 8 in-place "
              "steps x {plain `to` + every 4th of 18 other chains of length 1-2, rotated so that each triple sees every chain} x every "
              "object of the history as the victim; scalar or 2-element payloads. Epoch: 2 families (length; temperature with "
-             "offsets, those of the first registry non-zero), 2 registries x 6 entry points x 2 rounds",
+             "offsets, those of the first registry non-zero), 2 registries x 6 entry points x 2 rounds. Name table: 19 temperature and 11 angle "
+             "spellings x (5 resp. 3 anchors, both directions, 6 entry points) + 2 three-unit chains per spelling (to + convert_to_units). "
+             "Dtypes: 11 pairs + 2 triples x {int64 + one of uint64/int32/float32, rotating} x 6 entry points, 8 base-route cases x 2 dtypes, "
+             "5 history triples x 6 in-place conversions x {int64, uint64, int32} rotating; integer values in [-30000, 30000]",
     "thorough": "same kinds; all ordered triples per family; scalar, (2,) and (2,2) payloads; 6 entry points; EM pairs with 3 prefixes. "
                 "Histories: 40 triples (adds compound, energy, two free affine units, symbolic prefixed-offset targets, more table "
                 "pairs) x 8 in-place steps x {`to` + "
                 "every 2nd other chain} (thinned: the full chain product costs ~4x), the other payload shape of the quick tier, plus (2,2) "
-                "on three triples; epoch families (length, temperature, angle) with scalar and 2-element payloads",
+                "on three triples; epoch families (length, temperature, angle) with scalar and 2-element payloads. Name table: each spelling "
+                "additionally between every ordered pair of anchors and before each anchor. Dtypes: all four dtypes x both shapes on every "
+                "typed pair/triple (three free units: scalar only) and base case, 10 history triples",
 }
-OUTSIDE = ("IEEE rounding/overflow (A1); integer, complex and float32 payloads (C17) - the engine has one real dtype, so a defect that "
-           "depends on the dtype of the buffer (e.g. a copy that is skipped only for float32) is not seen; units whose scale is not "
+OUTSIDE = ("IEEE rounding/overflow (A1); complex, float16 and 1-/2-byte integer payloads (C17); typed payloads are walked on the listed "
+           "pairs/triples only (not on every kind pair), their values are bounded by 30000 in magnitude (the overflow branch of the "
+           "integer routes is C17's), their result dtype is not an obligation, and a typed 4-byte case is not part of the pinned-vs-plain "
+           "conformance sample (float32 rounding); in-place multiply / raw write on integer buffers (NumPy refuses the cast); table spellings "
+           "of dimensions without offsets (the compound/plain families use symbolic units and a few table units); units whose scale is not "
            "positive except the table's lat; histories longer than two derivations plus one in-place step; in-place arithmetic other "
            "than multiply and a raw buffer write; equivalence routes (to_equivalent, C09); base routes inside EM histories; histories "
            "with three free symbolic scales at once (the third unit of such a history is a table unit)")
@@ -128,6 +151,12 @@ def _angle_affine(ctx, reg, slot):
     return n, U(n, s, o)
 
 
+def _named_plain(ctx, reg, n, dims_name):
+    s = ctx.real(n + "_s", pos=True)
+    ctx.add_row(reg, n, getattr(ctx.mods["unyt"].dimensions, dims_name), s, 0.0)
+    return n, U(n, s, 0.0)
+
+
 def _table(name, s, o=0.0):
     def build(ctx, reg, slot):
         return name, U(name, s, o)
@@ -155,6 +184,32 @@ KINDS = {
     "degC": Kind("degC", "T", _table("degC", 1.0, -273.15)),
     "degF": Kind("degF", "T", _table("degF", 5.0 / 9.0 if False else None, -459.67)),
     "mdegC": Kind("mdegC", "T", _table("mdegC", 1e-3, -273150.0)),
+    # the rest of the temperature / angle name table: difference units, alternative spellings, prefixed forms, zero-offset rows
+    # (oracle constants written here; a unit that the code singles out by its spelling shows as a disagreement with them)
+    "delta_degC": Kind("delta_degC", "T", _table("delta_degC", 1.0)),
+    "delta_degF": Kind("delta_degF", "T", _table("delta_degF", 5.0 / 9.0)),
+    "kdelta_degC": Kind("kdelta_degC", "T", _table("kdelta_degC", 1e3)),
+    "mdelta_degC": Kind("mdelta_degC", "T", _table("mdelta_degC", 1e-3)),
+    "kdegC": Kind("kdegC", "T", _table("kdegC", 1e3, -0.27315)),
+    "mK": Kind("mK", "T", _table("mK", 1e-3)),
+    "celsius": Kind("celsius", "T", _table("celsius", 1.0, -273.15)),
+    "degree_celsius": Kind("degree_celsius", "T", _table("degree_celsius", 1.0, -273.15)),
+    "oC": Kind("oC", "T", _table("\u00b0C", 1.0, -273.15)),
+    "oF": Kind("oF", "T", _table("\u00b0F", 5.0 / 9.0, -459.67)),
+    "fahrenheit": Kind("fahrenheit", "T", _table("fahrenheit", 5.0 / 9.0, -459.67)),
+    "kelvin": Kind("kelvin", "T", _table("kelvin", 1.0)),
+    "rankine": Kind("rankine", "T", _table("rankine", 5.0 / 9.0)),
+    "Tsun": Kind("Tsun", "T", _table("Tsun", 5870.0)),
+    "arcmin": Kind("arcmin", "G", _table("arcmin", math.pi / 10800.0)),
+    "arcsec": Kind("arcsec", "G", _table("arcsec", math.pi / 648000.0)),
+    "hourangle": Kind("hourangle", "G", _table("hourangle", math.pi / 12.0)),
+    "rev": Kind("rev", "G", _table("rev", 2.0 * math.pi)),
+    "mrad": Kind("mrad", "G", _table("mrad", 1e-3)),
+    "latitude": Kind("latitude", "G", _table("latitude", -math.pi / 180.0, 90.0)),
+    "degree_longitude": Kind("degree_longitude", "G", _table("degree_longitude", math.pi / 180.0, -180.0)),
+    # a user-defined difference unit: zero offset, symbolic scale, spelled like the table's difference units
+    "Tdelta": Kind("Tdelta", "T", lambda ctx, reg, slot: _named_plain(ctx, reg, "delta_xt" + "abc"[slot], "temperature")),
+    "Gdelta": Kind("Gdelta", "G", lambda ctx, reg, slot: _named_plain(ctx, reg, "delta_xg" + "abc"[slot], "angle")),
     # table units of equal scale under different spellings (the oracle constants are written here, not read from unyt)
     "m": Kind("m", "Ltab", _table("m", 1.0)),
     "cm": Kind("cm", "Ltab", _table("cm", 1e-2)),
@@ -182,10 +237,29 @@ def _fix_table_scales(mods):
 
 
 ENTRIES = ["to", "in_units", "to_value", "convert_to_units", "manual", "Unit.get_conversion_factor"]
+# call-form axis of the same requests: target by keyword, as a Unit object, as a quantity in the target unit (walked on the
+# name-table and dtype families, whose cases are cheap)
+ENTRY_FORMS = ["to/kw", "in_units/kw", "to_value/kw", "convert_to_units/kw", "to/Unit", "in_units/Unit", "to_value/Unit",
+               "convert_to_units/Unit", "to/equivalence=None", "convert_to_units/equivalence=None"]
 
 
 def convert(ctx, q, ustr_or_unit, entry):
     """one conversion request through a given entry point -> (values as flat list, resulting Unit or None)"""
+    if "/" in entry:
+        Unit = ctx.mods["unyt"].Unit
+        route, form = entry.split("/")
+        tgt = ustr_or_unit
+        if form == "Unit" and not isinstance(tgt, Unit):
+            tgt = Unit(tgt, registry=q.units.registry)
+        kw = {"kw": dict(units=tgt), "Unit": dict(units=tgt), "equivalence=None": dict(units=tgt, equivalence=None)}[form]
+        if route == "convert_to_units":
+            c = q.copy()
+            c.convert_to_units(**kw)
+            return payload(c), c.units
+        r = getattr(q, route)(**kw)
+        if route == "to_value":
+            return elements(r), None
+        return payload(r), r.units
     if entry == "to":
         r = q.to(ustr_or_unit)
         return payload(r), r.units
@@ -210,11 +284,125 @@ def convert(ctx, q, ustr_or_unit, entry):
     raise KeyError(entry)
 
 
+# ----------------------------------------------------------------------------- the dtype axis (typed payloads)
+#
+# The engine's payload is an object array of z3 terms; NumPy sees one dtype ("O"), which the shims read as float64. The
+# conversion code however branches on the dtype of the BUFFER (integer buffers: the retyping dance of convert_to_units and the
+# overflow test; the float width of the result of in_units). A typed payload is the same object array inside a thin carrier
+# that REPORTS another dtype (int64, uint64, int32, float32) through .dtype / .d / .ndview and follows NumPy's rules for the
+# three things the code does with it: x.dtype = "f8" (reinterpretation: same item size only), x.astype(float) (a copy holding
+# the same numbers), x.copy() (keeps the dtype). Results of arithmetic carry no tag (they are the float results NumPy gives).
+# The real unyt bytecode runs unchanged on it; in replay mode the payload is a genuine NumPy buffer of that dtype.
+DTYPES = ("i8", "u8", "i4", "f4")
+_TYPED = {}
+
+
+def _typed_classes(mods):
+    key = id(mods["unyt"])
+    if key in _TYPED:
+        return _TYPED[key]
+    unyt = mods["unyt"]
+    real_dtype = np.ndarray.__dict__["dtype"]
+
+    def _as_dtype(v):
+        v = getattr(v, "_r", v)  # a dtype built inside unyt (shim wrapper) or a plain spec
+        return np.dtype(v)
+
+    class _Tagged:
+        _tag = None
+
+        def _get_dtype(self):
+            return self._tag if self._tag is not None else real_dtype.__get__(self)
+
+        def _set_dtype(self, v):
+            nd = _as_dtype(v)
+            if nd.itemsize != self.dtype.itemsize:
+                raise ValueError("When changing to a smaller/larger dtype, its size must be a divisor of the size of the array")
+            self._tag = nd
+
+        dtype = property(_get_dtype, _set_dtype)
+
+    class TagND(_Tagged, np.ndarray):
+        def __array_finalize__(self, obj):
+            self._tag = None
+
+        def astype(self, dtype, *a, **k):
+            nd = _as_dtype(dtype)
+            c = np.array(np.ndarray.view(self, np.ndarray), dtype=object, copy=True)
+            if nd.kind in "fc" and nd.itemsize >= 8:
+                return c
+            r = c.view(TagND)
+            r._tag = nd
+            return r
+
+    def _mk(base):
+        class Tag(_Tagged, base):
+            def __array_finalize__(self, obj):
+                base.__array_finalize__(self, obj)
+                self._tag = None
+
+            @property
+            def ndview(self):
+                v = np.ndarray.view(self, TagND)
+                v._tag = self._tag
+                return v
+
+            d = ndview
+
+            def copy(self, order="C"):
+                r = base.copy(self, order)
+                r._tag = self._tag
+                return r
+
+            def astype(self, dtype, *a, **k):
+                nd = _as_dtype(dtype)
+                r = base.copy(self)
+                r._tag = None if nd.kind in "fc" and nd.itemsize >= 8 else nd
+                return r
+        Tag.__name__ = base.__name__
+        return Tag
+
+    _TYPED[key] = (_mk(unyt.unyt_array), _mk(unyt.unyt_quantity))
+    return _TYPED[key]
+
+
+def _conformable(dtype):
+    # 4-byte payloads give float32 results on the plain library: the pinned-vs-plain comparison (1e-9) does not apply to them
+    return dtype is None or np.dtype(dtype).itemsize >= 8
+
+
+def typed_values(ctx, name, shape, dtype):
+    """symbols for a payload of that dtype: integers (bounded, so that the model fits the buffer and the float copy is exact)"""
+    if dtype is None:
+        return ctx.reals(name, shape)
+    if dtype[0] in "iu":
+        return ctx.reals(name, shape, integer=True, lo=0 if dtype[0] == "u" else -30000, hi=30000)
+    return ctx.reals(name, shape, lo=-30000, hi=30000)
+
+
+def typed_quantity(ctx, x, ustr, reg, dtype):
+    """a quantity whose buffer has the given dtype (None: the engine's plain float64 payload)"""
+    if dtype is None:
+        return ctx.quantity(x, ustr, reg)
+    if not ctx.symbolic:
+        unyt = ctx.mods["unyt"]
+        a = np.asarray(x, dtype=float)
+        a = (np.rint(a) if dtype[0] in "iu" else a).astype(dtype)
+        if a.shape == ():
+            return unyt.unyt_quantity(a[()], ustr, registry=reg)
+        return unyt.unyt_array(a, ustr, registry=reg)
+    TA, TQ = _typed_classes(ctx.mods)
+    q = ctx.quantity(x, ustr, reg)
+    t = q.view(TQ if q.shape == () else TA)
+    t._tag = np.dtype(dtype)
+    return t
+
+
 def unit_same(u, v):
     return And(str(u) == str(v), u.dimensions == v.dimensions, exact_eq(u.base_value, v.base_value), exact_eq(u.base_offset, v.base_offset))
 
 
-def make_chain_case(kinds, shape, entries, tag):
+def make_chain_case(kinds, shape, entries, tag, dtype=None):
     ks = [KINDS[k] for k in kinds]
 
     def h(ctx):
@@ -224,8 +412,8 @@ def make_chain_case(kinds, shape, entries, tag):
         for slot, k in enumerate(ks):
             us.append(k.build(ctx, reg, slot))
         (sA, oA) = us[0]
-        x = ctx.reals("x", shape)
-        q = ctx.quantity(x, sA, reg)
+        x = typed_values(ctx, "x", shape, dtype)
+        q = typed_quantity(ctx, x, sA, reg, dtype)
         u_before = q.units
         xs = elements(x)
         si_in = [oA.si(v) for v in xs]
@@ -251,7 +439,8 @@ def make_chain_case(kinds, shape, entries, tag):
         back = qb.to(sA)
         ctx.require("A->B->A", And(*[si_close(oA.si(v), s, oA, oB) for v, s in zip(payload(back), si_in)]))
         ctx.require("A->B->A numbers", all_close(payload(back), xs, extra=float(1e-6) * (vabs(oA.o) + vabs(oB.o * oB.s / oA.s))))
-        ctx.observe("back", payload(back))
+        if dtype is None:  # (integer pins hit exact zeros, where the two runs differ by rounding noise only)
+            ctx.observe("back", payload(back))
         if len(us) > 2:
             (sC, oC) = us[2]
             via = qb.to(sC)
@@ -259,12 +448,14 @@ def make_chain_case(kinds, shape, entries, tag):
             ctx.require("A->B->C == A->C", all_close(payload(via), payload(direct), extra=float(1e-6) * (vabs(oC.o) + vabs(oA.o * oA.s / oC.s) + vabs(oB.o * oB.s / oC.s))))
             ctx.require("A->C si", And(*[si_close(oC.si(v), s, oC, oA) for v, s in zip(payload(direct), si_in)]))
             ctx.require("A->B->C unit", unit_same(via.units, direct.units))
-            ctx.observe("via", payload(via))
+            if dtype is None:
+                ctx.observe("via", payload(via))
         # the input must be untouched by all of the above
         ctx.require("input untouched", And(all_close(payload(q), xs, tol=0), q.units is u_before, unit_same(q.units, unyt.Unit(sA, registry=reg))))
 
-    return Case(f"C03/{tag}/{'>'.join(kinds)}/shape{'x'.join(map(str, shape)) or '0'}", h,
-                bounds="symbolic: values, scales, offsets", budget_s=900, max_paths=20000, weight=10 * len(kinds) * (1 + sum(k.endswith('affine') for k in kinds)))
+    return Case(f"C03/{tag}/{'>'.join(kinds)}/shape{'x'.join(map(str, shape)) or '0'}" + (f"/{dtype}" if dtype else ""), h,
+                bounds="symbolic: values, scales, offsets", budget_s=900, max_paths=20000, weight=10 * len(kinds) * (1 + sum(k.endswith('affine') for k in kinds)),
+                conform=_conformable(dtype))
 
 
 # ----------------------------------------------------------------------------- EM pairs (concrete factors)
@@ -313,15 +504,15 @@ def make_em_case(a, b, pa, pb, shape):
     return Case(f"C03/em/{pa}{a}>{pb}{b}/shape{'x'.join(map(str, shape)) or '0'}", h, bounds="concrete EM factors, symbolic values")
 
 
-def make_base_case(kind, system, shape):
+def make_base_case(kind, system, shape, dtype=None):
     """in_base == convert_to_base == to(get_base_equivalent), for symbolic-scale units"""
     k = KINDS[kind]
 
     def h(ctx):
         reg = ctx.registry([])
         sA, oA = k.build(ctx, reg, 0)
-        x = ctx.reals("x", shape)
-        q = ctx.quantity(x, sA, reg)
+        x = typed_values(ctx, "x", shape, dtype)
+        q = typed_quantity(ctx, x, sA, reg, dtype)
         xs = elements(x)
         r1 = q.in_base(system)
         c = q.copy()
@@ -338,7 +529,7 @@ def make_base_case(kind, system, shape):
         ctx.require("in_base si", And(*[close((v - ob) * sb, oA.si(w), extra=1e-6 * (vabs(oA.s * oA.o) + vabs(sb * ob))) for v, w in zip(payload(r1), xs)]))
         ctx.observe("in_base", payload(r1))
         ctx.require("input untouched", And(all_close(payload(q), xs, tol=0), unit_same(q.units, ctx.mods["unyt"].Unit(sA, registry=reg))))
-    return Case(f"C03/base/{kind}/{system}/shape{'x'.join(map(str, shape)) or '0'}", h)
+    return Case(f"C03/base/{kind}/{system}/shape{'x'.join(map(str, shape)) or '0'}" + (f"/{dtype}" if dtype else ""), h, conform=_conformable(dtype))
 
 
 # ----------------------------------------------------------------------------- call histories (results are independent objects)
@@ -352,7 +543,7 @@ def make_base_case(kind, system, shape):
 # fresh requests (to / to_value) from the survivors must still give the oracle's numbers. Everything runs inside one path.
 
 ALIAS = {"xa": "xd", "xta": "xtd", "xtk": "xtkd", "xtp": "xtpd", "xga": "xgd"}
-NAMES += sorted(ALIAS.values())
+NAMES += sorted(ALIAS.values()) + ["delta_xt" + c for c in "abc"] + ["delta_xg" + c for c in "abc"]
 
 # non-mutating routes: ("route", target) with target "A" | "B" | None (base routes choose their own target)
 CHAINS = [
@@ -418,7 +609,7 @@ def _slack(*orcs):
     return tot * float(1e-6)
 
 
-def make_history_case(kinds, shape, op, tag, chains=None):
+def make_history_case(kinds, shape, op, tag, chains=None, dtype=None):
     """kinds = [A, B, C]; B may be '=' (A's own unit, same spelling) or '~' (another symbol with A's scale and offset)"""
     kA, kB, kC = kinds
     own = kB == "="
@@ -446,7 +637,7 @@ def make_history_case(kinds, shape, op, tag, chains=None):
         tg = {"A": A, "B": B, None: None}
         k = ctx.real("k", nonzero=True)
         w = ctx.real("w")
-        xs = elements(ctx.reals("x", shape))
+        xs = elements(typed_values(ctx, "x", shape, dtype))
         si_in = [A[1].si(v) for v in xs]
 
         slack0 = _slack(A[1], B[1], C[1])
@@ -472,7 +663,7 @@ def make_history_case(kinds, shape, op, tag, chains=None):
             nobj = 1 + sum(not r.endswith("!") for r, _ in chain)
             for victim in range(nobj):
                 # a fresh history over the same symbols
-                objs = [_Obj(ctx.quantity(ctx.reals("x", shape), A[0], reg), *A)]
+                objs = [_Obj(typed_quantity(ctx, typed_values(ctx, "x", shape, dtype), A[0], reg, dtype), *A)]
                 for route, t in chain:
                     new = _step(ctx, reg, objs[-1], route, tg[t])
                     if new is not None:
@@ -539,9 +730,9 @@ def make_history_case(kinds, shape, op, tag, chains=None):
                 ctx.require(f"{lab}/victim and fresh requests read the oracle's numbers", And(*good))
 
     sh = "x".join(map(str, shape)) or "0"
-    return Case(f"C03/{tag}/{'>'.join(kinds)}/{op.replace('/', '.')}/shape{sh}", h,
+    return Case(f"C03/{tag}/{'>'.join(kinds)}/{op.replace('/', '.')}/shape{sh}" + (f"/{dtype}" if dtype else ""), h,
                 bounds="symbolic: values, scales, offsets, k, w; enumerated: chain of routes, victim, in-place step", budget_s=900, max_paths=20000,
-                weight=10 * len(kinds) * (1 + sum(k.endswith('affine') for k in kinds)))
+                weight=10 * len(kinds) * (1 + sum(k.endswith('affine') for k in kinds)), conform=_conformable(dtype))
 
 
 def make_epoch_case(fam, shape, free=True):
@@ -602,11 +793,16 @@ HIST_TRIPLES_MORE = [["Taffine", "~", "Tk"], ["Taffine", "Taffine", "K"], ["Tk",
                      ["Nm", "J", "erg"], ["statC", "=", "coulomb"], ["mtesla", "tesla", "gauss"]]
 
 
+# histories whose source buffer is typed (the head is an integer / float32 buffer; what is derived from it is float)
+HIST_TYPED = [["degC", "=", "K"], ["K", "degC", "degF"], ["lon", "=", "degree"], ["Taffine", "=", "degC"], ["m", "=", "cm"]]
+HIST_TYPED_MORE = [["Taffine", "~", "mdegC"], ["Gaffine", "=", "lat"], ["degF", "delta_degC", "R"], ["plainL", "=", "kplainL"], ["mdegC", "=", "degC"]]
+
+
 def _is_base_route(r):
     return r.startswith(("in_base", "in_cgs", "in_mks", "convert_to_mks", "convert_to_cgs", "convert_to_base"))
 
 
-def history_cases(triples, rotate=0, flip=0, shapes=None):
+def history_cases(triples, rotate=0, flip=0, shapes=None, dtypes=None):
     """rotate=0: every chain in every case. rotate=n: each (triple, in-place step) case runs the plain `to` chain plus every n-th
     of the other chains, shifted so that one triple sees every chain (with two in-place steps each when n=4) and n consecutive
     triples see every (chain, in-place step) pair. EM triples: explicit targets only (the base routes of EM units are the subject
@@ -617,13 +813,72 @@ def history_cases(triples, rotate=0, flip=0, shapes=None):
         first = CHAINS[:1]
         rest = CHAINS[1:] + (CHAINS_OWN if tr[1] == "=" else [])
         ops = INPLACE
+        if dtypes:
+            # an integer buffer takes no float product and no float write in place (NumPy refuses the cast): conversions only
+            ops = [o for o in INPLACE if o not in ("imul", "write")]
         if em:
             rest = [c for c in rest if not any(_is_base_route(r) for r, _ in c)]
             ops = [o for o in INPLACE if not _is_base_route(o)]
         for oi, op in enumerate(ops):
             chains = first + (rest if not rotate else rest[(oi + ti) % rotate::rotate])
             for sh in (shapes or [(2,) if op in ("imul", "write") or (ti + oi + flip) % 2 else ()]):
-                out.append(make_history_case(tr, sh, op, "hist", chains))
+                if dtypes:
+                    out.append(make_history_case(tr, sh, op, "histTyped", chains, dtypes[(ti + oi) % len(dtypes)]))
+                else:
+                    out.append(make_history_case(tr, sh, op, "hist", chains))
+    return out
+
+
+# dtype axis: (A, B[, C]) walked with typed payloads through every entry point (in-place twins included), and base routes
+TYPED_CHAINS = [["degC", "degF"], ["K", "degC"], ["degF", "K"], ["Taffine", "Taffine"], ["Taffine", "degC"], ["Tk", "Taffine"],
+                ["lat", "degree"], ["degree", "lon"], ["Gaffine", "rad"], ["plainL", "kplainL"], ["mdegC", "delta_degF"],
+                ["degC", "K", "degF"], ["Tplain", "Taffine", "Tm"], ["rad", "lat", "lon"]]
+TYPED_BASES = [("degC", "mks"), ("degF", "cgs"), ("Taffine", "mks"), ("Tk", "cgs"), ("lat", "mks"), ("Gaffine", "cgs"), ("plainL", "cgs"),
+               ("compound", "mks")]
+# name-table axis: every spelling kind of the two affine dimensions against the anchors of its family
+T_TABLE = ["K", "R", "degC", "degF", "delta_degC", "delta_degF", "mdegC", "kdegC", "kdelta_degC", "mdelta_degC", "mK", "celsius",
+           "degree_celsius", "oC", "oF", "fahrenheit", "kelvin", "rankine", "Tsun"]
+G_TABLE = ["rad", "degree", "lat", "lon", "arcmin", "arcsec", "hourangle", "rev", "mrad", "latitude", "degree_longitude"]
+T_ANCHORS = ["degC", "K", "degF", "delta_degC", "Taffine"]
+G_ANCHORS = ["lat", "degree", "Gaffine"]
+
+
+def table_cases(tier):
+    out, seen = [], set()
+    for table, anchors, f in ((T_TABLE, T_ANCHORS, "T"), (G_TABLE, G_ANCHORS, "G")):
+        for i, t in enumerate(table):
+            for j, a in enumerate(anchors):
+                for pair in ([t, a], [a, t]):
+                    if pair[0] != pair[1] and tuple(pair) not in seen:
+                        seen.add(tuple(pair))
+                        out.append(make_chain_case(pair, () if (i + j) % 2 else (2,), ENTRIES + ENTRY_FORMS, "name" + f))
+        # chains through three spellings: each table unit in the middle and at both ends (thorough: against every anchor pair)
+        n = len(table)
+        for i, t in enumerate(table):
+            trs = [[anchors[i % len(anchors)], t, anchors[(i + 1) % len(anchors)]], [t, table[(i + 3) % n], table[(i + 7) % n]]]
+            if tier != "quick":
+                trs += [[a, t, b] for a in anchors for b in anchors if a != b] + [[t, a, table[(i + 5) % n]] for a in anchors]
+            for tr in trs:
+                if tuple(tr) not in seen:
+                    seen.add(tuple(tr))
+                    out.append(make_chain_case(tr, (), ENTRIES[:1] + ENTRIES[3:4], "nameChain" + f))
+    return out
+
+
+def typed_cases(tier):
+    out = []
+    for i, tr in enumerate(TYPED_CHAINS):
+        free = sum(k in ("Taffine", "Gaffine", "Tplain", "Tk", "Tm") for k in tr)
+        if tier == "quick" and free >= 3:
+            continue  # three free units with integer payloads: mixed integer/non-linear queries, minutes per case (thorough only)
+        dts = DTYPES if tier != "quick" else ("i8", DTYPES[1 + i % 3])
+        for dt in dts:
+            for sh in ([(), (2,)] if tier != "quick" and free < 3 else [() if i % 2 or free >= 2 else (2,)]):
+                out.append(make_chain_case(tr, sh, ENTRIES + (ENTRY_FORMS if free < 2 else []), "typed", dt))
+    for i, (k, sy) in enumerate(TYPED_BASES):
+        dts = DTYPES if tier != "quick" else ("i8", DTYPES[1 + i % 3])
+        for dt in dts:
+            out.append(make_base_case(k, sy, () if i % 2 else (2,), dt))
     return out
 
 
@@ -631,10 +886,12 @@ def cases(tier, mods):
     _fix_table_scales(mods)
     check_names(mods, NAMES)
     out = []
+    out += table_cases(tier)
+    out += typed_cases(tier)
     fam = {
         "L": ["plainL", "kplainL", "uplainL"],
-        "T": ["Tplain", "Taffine", "Tk", "Tm"],
-        "G": ["Gaffine", "rad", "degree", "lat", "lon"],
+        "T": ["Tplain", "Taffine", "Tk", "Tm", "Tdelta"],
+        "G": ["Gaffine", "rad", "degree", "lat", "lon", "Gdelta"],
         "Ttab": ["K", "degC", "degF", "mdegC", "R", "Taffine"],
     }
     shapes_q = [(), (2,)]
@@ -661,11 +918,15 @@ def cases(tier, mods):
             for s in ("cgs", "mks"):
                 out.append(make_base_case(k, s, ()))
         out += history_cases(HIST_TRIPLES_QUICK, rotate=4)
+        out += history_cases(HIST_TYPED, rotate=4, dtypes=("i8", "u8", "i4"))
         for f in ("L", "T"):
             out.append(make_epoch_case(f, (), free=False))
     else:
         for f, ks in fam.items():
             for a, b, c in itertools.product(ks, ks, ks):
+                nd = sum(k in ("Tdelta", "Gdelta") for k in (a, b, c))
+                if nd > 1 or (nd == 1 and any(k in ("Tplain", "rad", "degree") for k in (a, b, c))):
+                    continue  # the difference-spelled symbolic unit: one per triple, next to units with an offset (prefixed ones included)
                 out.append(make_chain_case([a, b, c], (), ENTRIES, "chain" + f))
             for a, b in itertools.product(ks, ks):
                 out.append(make_chain_case([a, b], (2,), ENTRIES, "pair" + f))
@@ -686,6 +947,7 @@ def cases(tier, mods):
         # thinned: every second of the other chains per (triple, in-place step) instead of all of them (the full product is ~4x the cost)
         out += history_cases(HIST_TRIPLES_QUICK + HIST_TRIPLES_MORE, rotate=2, flip=1)
         out += history_cases(HIST_TRIPLES_QUICK[:3], rotate=2, shapes=[(2, 2)])
+        out += history_cases(HIST_TYPED + HIST_TYPED_MORE, rotate=2, dtypes=("i8", "u8", "i4", "f4"))
         for f in ("L", "T", "G"):
             for sh in [(), (2,)]:
                 out.append(make_epoch_case(f, sh))
